@@ -291,7 +291,7 @@ func RunC05(env *Env, rep *Report) {
 		}
 	}
 	rep.Technique = "symbolic execution of the real parser and emitter under both optimize settings on one symbolic input (go/ssa) + SMT-discharged bisimulation between the two outputs + structural assertions on the output ropes"
-	rep.Explanation = "Bounded symbolic verification, not a proof. For every skeleton of the C01 (statement trees) and C03 (switch) families within the bounds, the real code is executed symbolically with -optimize on and off on the same symbolic input (all names symbolic). Asserted: (i) the two outputs are bisimilar from every script entry for every game state (SMT-discharged, runs of any length), (ii) they define the same user-visible labels and data lines, (iii) in neither output does a generated goto target the label on the very next line, (iv) every generated sub-label that is emitted is the operand of some jump or case."
+	rep.Explanation = "Bounded symbolic verification, not a proof. For every skeleton of the C01 (statement trees, the dead-code label shapes, and files mixing script statements with inline map scripts - entries and table rows - whose labels are read off the emitted header) and C03 (switch) families within the bounds, the real code is executed symbolically with -optimize on and off on the same symbolic input (all names symbolic). Asserted: (i) the two outputs are bisimilar from every script entry for every game state (SMT-discharged, runs of any length), (ii) they define the same user-visible labels and data lines, (iii) in neither output does a generated goto target the label on the very next line, (iv) every generated sub-label that is emitted is the operand of some jump or case."
 	rep.Bounds = map[string]interface{}{"statement_tree_max_nodes": maxNodes, "statement_tree_cases": nflow, "mixed_file_cases": nmixed, "switch_max_length": maxLen, "switch_cases": len(cases) - nflow, "switch_bodies": swBodies, "switch_contexts": swContexts}
 	rep.Outside = []string{"shapes beyond the bounds", "programs with inline text / movements (their hoisting is C06; the data comparison here sees only what the families contain)"}
 	rep.Assumptions = []string{"assembly semantics of DESIGN.md §4.1", "a generated goto is one whose operand is <script>_<digits>; a generated sub-label is a label of that form"}
